@@ -33,9 +33,9 @@ type MDeleg struct {
 }
 
 type MReward struct {
-	Addr                                string
+	Addr                                  string
 	Issued, Withdrawn, Slashed, Cumulated *big.Int
-	Height                              int64
+	Height                                int64
 }
 
 type MVoter struct {
@@ -412,4 +412,54 @@ func marksFrom(m []int64, floor int64) []int64 {
 		}
 	}
 	return out
+}
+
+// adoptGenesisStakeIDs: the properties do not say which id a genesis stake carries (the pinned code uses 00..00 for
+// all of them). The expectation for block 1 is built with 00..00; where the observed state shows the same genesis
+// stake (same owner, same validator, same place: bonded or unbonding) under another id that is not a transaction
+// of block 1, the expectation takes that id over. From block 2 on ids come from the observed previous state anyway.
+func adoptGenesisStakeIDs(exp, obs *MState, blockTx map[string]bool) int {
+	zero := strings.Repeat("0", 64)
+	n := 0
+	pick := func(cands []*MStake, owner, to string) string {
+		id := ""
+		for _, st := range cands {
+			if st.Owner == owner && st.To == to && st.TxHash != zero && !blockTx[st.TxHash] {
+				if id != "" && id != st.TxHash {
+					return "" // not unique
+				}
+				id = st.TxHash
+			}
+		}
+		return id
+	}
+	for addr, d := range exp.Delegatees {
+		od := obs.Delegatees[addr]
+		if od == nil {
+			continue
+		}
+		for _, st := range d.Stakes {
+			if st.TxHash == zero {
+				if id := pick(od.Stakes, st.Owner, st.To); id != "" {
+					st.TxHash = id
+					n++
+				}
+			}
+		}
+	}
+	var ofz []*MStake
+	for _, st := range obs.Frozen {
+		ofz = append(ofz, st)
+	}
+	for k, st := range exp.Frozen {
+		if st.TxHash == zero {
+			if id := pick(ofz, st.Owner, st.To); id != "" {
+				delete(exp.Frozen, k)
+				st.TxHash = id
+				exp.Frozen[id+"|"+st.Owner] = st
+				n++
+			}
+		}
+	}
+	return n
 }
